@@ -82,6 +82,8 @@ func main() {
 			name = os.Args[2]
 		}
 		os.Exit(selfcheck(name))
+	case "recoverchild":
+		os.Exit(recoverChild())
 	case "envchild":
 		os.Exit(envChild(os.Args[2:]))
 	case "firstuse":
